@@ -8,6 +8,7 @@ import (
 	"crypto/ecdsa"
 	"encoding/json"
 	"fmt"
+	"io"
 	"math/big"
 	"strings"
 	"testing"
@@ -192,6 +193,9 @@ func runC20(c c20Case) ev.Outcome {
 			}
 		default:
 			cfg := sim.SignCfg{EdDSA: c.EdDSA, T: c.Key.T, Msg: msg, FullBytesLen: -1}
+			// the parameters also carry the (seeded, hence repeating) source a caller may configure for key
+			// generation's reproducible u_i; signing nonces must come from Rand(), never from it
+			cfg.PartialKeyRand = func(i int) io.Reader { return newDRBG(fmt.Sprintf("c20-partial-key/%d", i)) }
 			checkX, checkY := pubX, pubY
 			srcEC, srcED := storedEC, storedED
 			if useReloaded {
